@@ -2,6 +2,11 @@
 
 package valid
 
+import (
+	"strings"
+	"time"
+)
+
 // C18: the same rule on the same value gives the same verdict through every
 // entry point: struct field, Var, map[string]T, map[string]interface{},
 // []map[string]T and, for strings, a URL query parameter (raw or
@@ -205,3 +210,98 @@ func H_C18_num_in()          { vC18Num(9) }
 func H_C18_num_int()         { vC18Num(10) }
 func H_C18_num_ints()        { vC18Num(11) }
 func H_C18_num_float()       { vC18Num(12) }
+
+// every numeric kind through struct field, Var and map entry: zero is skipped, required fires on zero,
+// a size rule judges the value
+type vC18All struct {
+	p   int // unexported fields and a time.Time before the fields under test
+	T   time.Time
+	I8  int8   `valid:"required,ge=3"`
+	I16 int16  `valid:"required,ge=3"`
+	I32 int32  `valid:"required,ge=3"`
+	U16 uint16 `valid:"required,ge=3"`
+	U32 uint32 `valid:"required,ge=3"`
+	U64 uint64 `valid:"required,ge=3"`
+	q   string
+	F32 float32 `valid:"required,ge=3"`
+	S   string  `valid:"required,ge=3"`
+}
+
+func vC18Verdicts(x interface{}) (string, string, string) {
+	v := vErrText(Var(x, "required", "ge=3"))
+	m := "?"
+	switch y := x.(type) {
+	case int8:
+		m = vErrText(Map(map[string]int8{"k": y}, NewRule().Set("k", "required,ge=3")))
+	case int16:
+		m = vErrText(Map(map[string]int16{"k": y}, NewRule().Set("k", "required,ge=3")))
+	case int32:
+		m = vErrText(Map(map[string]int32{"k": y}, NewRule().Set("k", "required,ge=3")))
+	case uint16:
+		m = vErrText(Map(map[string]uint16{"k": y}, NewRule().Set("k", "required,ge=3")))
+	case uint32:
+		m = vErrText(Map(map[string]uint32{"k": y}, NewRule().Set("k", "required,ge=3")))
+	case uint64:
+		m = vErrText(Map([]map[string]uint64{{"k": y}}, NewRule().Set("k", "required,ge=3")))
+	case float32:
+		m = vErrText(Map(map[string]float32{"k": y}, NewRule().Set("k", "required,ge=3")))
+	case string:
+		m = vErrText(Map(map[string]string{"k": y}, NewRule().Set("k", "required,ge=3")))
+	}
+	return v, m, ""
+}
+
+func vClass(errText string) int {
+	switch {
+	case errText == "<nil>":
+		return 0
+	case strings.Contains(errText, "it is required"):
+		return 1
+	}
+	return 2
+}
+
+func H_C18_all_kinds() {
+	o := &vC18All{p: 1, q: "q", T: time.Unix(9, 0)}
+	var x interface{}
+	field := ""
+	switch vndChoice("kind", 8) {
+	case 0:
+		o.I8 = vndInt8("x")
+		x, field = o.I8, "I8"
+	case 1:
+		o.I16 = vndInt16("x")
+		x, field = o.I16, "I16"
+	case 2:
+		o.I32 = vndInt32("x")
+		x, field = o.I32, "I32"
+	case 3:
+		o.U16 = vndUint16("x")
+		x, field = o.U16, "U16"
+	case 4:
+		o.U32 = vndUint32("x")
+		x, field = o.U32, "U32"
+	case 5:
+		o.U64 = vndUint64("x")
+		x, field = o.U64, "U64"
+	case 6:
+		o.F32 = vndFloat32("x")
+		vAssume(vNot(vIsNaN(float64(o.F32))))
+		x, field = o.F32, "F32"
+	case 7:
+		o.S = vndString("x", 4)
+		x, field = o.S, "S"
+	}
+	// judge only the chosen field: every other field gets a rule set that removes its rules
+	rm := RM{}
+	for _, f := range []string{"I8", "I16", "I32", "U16", "U32", "U64", "F32", "S"} {
+		if f != field {
+			rm[f] = "ge=0"
+		}
+	}
+	s := vErrText(Struct(o, rm))
+	v, m, _ := vC18Verdicts(x)
+	vAssert(vClass(s) == vClass(v), "C18 "+field+": struct field (after unexported and time.Time fields) vs Var")
+	vAssert(vClass(m) == vClass(v), "C18 "+field+": map entry vs Var")
+	vReach("end")
+}
